@@ -10,6 +10,7 @@ import (
 	"github.com/trustbloc/sidetree-core-go/pkg/api/protocol"
 	"github.com/trustbloc/sidetree-core-go/pkg/canonicalizer"
 	"github.com/trustbloc/sidetree-core-go/pkg/jws"
+	"github.com/trustbloc/sidetree-core-go/pkg/patch"
 	"github.com/trustbloc/sidetree-core-go/pkg/versions/1_0/model"
 	"github.com/trustbloc/sidetree-core-go/pkg/versions/1_0/operationparser/patchvalidator"
 
@@ -205,4 +206,45 @@ func ReqView(buf []byte, originOK func(interface{}) bool) string {
 	return emit.App("Build_req_view", emit.Z(int64(len(buf))), emit.Bool(schemaOK), emit.Hex([]byte(ty)), emit.Bool(structOK),
 		emit.Hex([]byte(didSuffix)), emit.Hex([]byte(reveal)), emit.Hex([]byte(signedData)),
 		SignedView(signedData, ty, originOK), deltaView(delta), suffixView(sd, originOK))
+}
+
+// PatchVerdicts gives patchvalidator.Validate's verdict for every patch of the request's decoded delta (the same
+// decoding as ReqView): the facts the view computed inside Coq from the request bytes still takes from the code.
+func PatchVerdicts(buf []byte) []bool {
+	var schema struct {
+		Operation string `json:"type"`
+	}
+	if json.Unmarshal(buf, &schema) != nil {
+		return nil
+	}
+	var delta *model.DeltaModel
+	switch schema.Operation {
+	case "create":
+		var r model.CreateRequest
+		if json.Unmarshal(buf, &r) == nil {
+			delta = r.Delta
+		}
+	case "update":
+		var r model.UpdateRequest
+		if json.Unmarshal(buf, &r) == nil {
+			delta = r.Delta
+		}
+	case "recover":
+		var r model.RecoverRequest
+		if json.Unmarshal(buf, &r) == nil {
+			delta = r.Delta
+		}
+	}
+	var out []bool
+	if delta != nil {
+		for _, p := range delta.Patches {
+			ok := false
+			func(p patch.Patch) {
+				defer func() { _ = recover() }()
+				ok = patchvalidator.Validate(p) == nil
+			}(p)
+			out = append(out, ok)
+		}
+	}
+	return out
 }
